@@ -129,16 +129,17 @@ func ZipFolder(srcDir, destFile string, testFunc func(string) bool, recursive bo
 			return nil
 		}
 
-		if !recursive {
-			dir, _ := filepath.Split(path)
-			dir = ensureDirName(dir)
-			if dir != srcDir {
-				// skipping subfolders
-				return nil
-			}
+		rel, err := filepath.Rel(srcDir, path)
+		if err != nil {
+			return fmt.Errorf("ZipFolder: could not get the path of %s relative to %s, err=%w", path, srcDir, err)
 		}
 
-		dstFileName := path[len(srcDir):]
+		if !recursive && filepath.Dir(rel) != "." {
+			// skipping subfolders
+			return nil
+		}
+
+		dstFileName := "/" + rel
 		out, err := w.Create(dstFileName)
 		if err != nil {
 			return fmt.Errorf("ZipFolder: could not write %s into %s, err=%w", path, dstFileName, err)
